@@ -1,3 +1,16 @@
+//! C01, C02, C03: binary codec round trip, totality and limits.
 use crate::common::*;
-pub fn child(_n: &str, _rest: &[String]) -> i32 { 0 }
+
+pub fn child(_name: &str, _rest: &[String]) -> Option<i32> {
+    None
+}
+
+pub fn dispatch(args: &Args, rep: &mut Report) -> bool {
+    match args.prop.as_str() {
+        "C01" => c01(args, rep),
+        _ => return false,
+    }
+    true
+}
+
 pub fn c01(_args: &Args, _rep: &mut Report) {}
